@@ -1,7 +1,65 @@
+(* C34: outbound DATA respects the peer's windows, the frame size and per-stream order.  Property theorems only.
+   Vocabulary (model/H2Sched.v): `sst` is the state of writeScheduler + flows (maxFrameSize, connection window,
+   stream windows, control queue ws.zero, per-stream queues ws.sq); `take_with s c` is the result of
+   writeScheduler.take() when Go's map iteration reaches stream c first among the eligible ones, so a statement
+   "for all c" covers every scheduling choice.  `svalidate sst0 ops obs` = the observed per-step results obs
+   are a behaviour the model allows for the operation list ops (this is what agree_C34 checks against the real
+   code).  `spec_run spec0 ops obs` is the specification checker: it keeps the CLIENT's view (windows as
+   mathematical integers: initial value + accepted updates - DATA bytes received; per stream the list of frames
+   produced and not yet sent) and rejects a trace as soon as a DATA frame is longer than the stream window,
+   the connection window or the max frame size, a frame of a stream is not (a byte-exact prefix chunk of) the
+   oldest pending frame of that stream, a frame is sent for a stream whose queue was dropped by forgetStream
+   (stream ended or reset) or the scheduler panics.
+   `wf_sop`: initial windows in 0..2^31-1, window increments / SETTINGS deltas in -2^30..2^31-1,
+   maxFrameSize in 1..2^31-1, payload lengths >= 0. *)
 From Coq Require Import List ZArith Bool.
-From Bfe Require Import lib.Val model.H2Sched run.RunC34.
+From Bfe Require Import lib.Val lib.ValProofs model.H2Sched proofs.H2SchedProofs run.RunC34.
 Import ListNotations.
 Open Scope Z_scope.
-Example C34_placeholder : wrap32 2147483648 = -2147483648.
-Proof. exact eq_refl. Qed.
-Print Assumptions C34_placeholder.
+
+(* Every trace the model allows - for every interleaving of adds, takes, forgets, window updates, SETTINGS
+   changes and EVERY map-iteration choice inside take - is accepted by the specification checker. *)
+Theorem C34_within_windows_and_framesize_fifo_nothing_after_end : forall ops obs,
+  Forall wf_sop ops -> svalidate sst0 ops obs = true -> spec_run spec0 ops (map fst obs) = true.
+Proof. exact allowed_traces_meet_spec. Qed.
+Print Assumptions C34_within_windows_and_framesize_fifo_nothing_after_end.
+
+(* The same through the wire functions: whenever the correspondence check accepts what the implementation did,
+   the property predicate holds of that observation. *)
+Theorem C34_agree_implies_prop : forall i o,
+  (forall ops, dec_sops i = Some ops -> Forall wf_sop ops) ->
+  agree_C34 i o = true -> prop_C34 i o = true.
+Proof. exact agree_implies_prop. Qed.
+Print Assumptions C34_agree_implies_prop.
+
+(* The model's own canonical run (first eligible stream in creation order) satisfies the specification. *)
+Theorem C34_model_run_meets_spec : forall ops,
+  Forall wf_sop ops -> spec_run spec0 ops (map fst (srun sst0 ops)) = true.
+Proof. exact model_run_meets_spec. Qed.
+Print Assumptions C34_model_run_meets_spec.
+
+(* Step form: a non-empty DATA frame returned by take (any choice c) is no longer than the stream window, the
+   connection window and maxFrameSize of the state it is taken from, and both windows shrink by exactly its
+   length (no int32 wrap). *)
+Theorem C34_within_windows_and_framesize : forall s c d start len es s',
+  sinv s -> take_with s c = TOk (FData d start len es) s' -> 0 < len ->
+  len <= win s d /\ len <= connw s /\ len <= maxf s /\
+  connw s' = connw s - len /\ win s' d = win s d - len.
+Proof. exact take_within_windows. Qed.
+Print Assumptions C34_within_windows_and_framesize.
+
+(* flow.take's "took too much", the negative slice bound and q.head() on an empty queue are unreachable:
+   take never panics in any reachable state, whatever stream the map iteration offers. *)
+Theorem C34_take_never_panics : forall s c, sreach s -> take_with s c <> TPanic.
+Proof. exact reachable_take_never_panics. Qed.
+Print Assumptions C34_take_never_panics.
+
+(* Non-vacuity: connection window 10, max frame 4, stream 1 window 6: a 9-byte DATA frame with END_STREAM is
+   sent as 4 + 2 bytes (stream window exhausted), then after WINDOW_UPDATE 20 the last 3 bytes with END_STREAM
+   (connection window had 4 left); control and HEADERS frames go first; after forgetStream nothing is sent. *)
+Example C34_example_trace : Forall wf_sop ex_sops /\
+  map fst (srun sst0 ex_sops) =
+  [OBool true; ONone; OBool true; OBool true; ONone; ONone; ONone;
+   OFrame (FCtl 5); OFrame (FHdr 3 2); OFrame (FData 1 7 4 false); OFrame (FData 1 11 2 false); ONone;
+   OBool true; OFrame (FData 1 13 3 true); ONone; ONone].
+Proof. exact ex_sops_run. Qed.
